@@ -95,9 +95,9 @@ func hoRun(in []byte) (interface{}, error) {
 	conf.Options.HttpProfile = 9320
 	conf.Options.SourceAuthType = "auth"
 	conf.Options.Id = "verif"
-	hungCases := 0
+	hungCases, shortCases := 0, 0
 	for ci := range cfg.Cases {
-		if hungCases >= 3 {
+		if hungCases >= 3 || shortCases >= 6 {
 			break // every further case would cost another watchdog period; three hangs are a verdict already
 		}
 		c := &cfg.Cases[ci]
@@ -264,6 +264,9 @@ func hoRun(in []byte) (interface{}, error) {
 		ev["want_len"] = len(want)
 		if h, _ := ev["hung"].(bool); h {
 			hungCases++
+		}
+		if ol, _ := ev["out_len"].(int); ol < len(want) {
+			shortCases++ // bytes never arrived: the reader waited its whole (generous) budget for them
 		}
 		tr.Emit(ev)
 		src.Close()
